@@ -3,6 +3,7 @@ package rules
 import (
 	"fmt"
 	"go/ast"
+	"go/parser"
 	"go/token"
 	"go/types"
 	"sort"
@@ -832,18 +833,82 @@ func E6ScannerSites(c *core.Ctx, r *core.Report) {
 			return true
 		})
 	}
-	okSize := len(shapes) == 2
-	for _, sh := range shapes {
-		parts := strings.Split(sh, " x ")
-		if len(parts) != 2 || !(core.AlphaMatch("int($c.W*$res.DPMM()+0.5)", parts[0]) || core.AlphaMatch("int($w*$res.DPMM()+0.5)", parts[0])) ||
-			!(core.AlphaMatch("int($c.H*$res.DPMM()+0.5)", parts[1]) || core.AlphaMatch("int($h*$res.DPMM()+0.5)", parts[1])) {
+	// each size argument is round(extent × resolution): stripped of int(…), of the rounding (`+0.5`,
+	// math.Round, math.Floor(…+0.5)) it is a product with a DPMM() factor; the rounding mode is the
+	// same at both sites and for both axes (sibling agreement), and it is rounding, not truncation
+	sizeMode := func(e ast.Expr) (mode string, ok bool) {
+		e = core.Unparen(e)
+		if call, isCall := e.(*ast.CallExpr); isCall && len(call.Args) == 1 {
+			if id, isID := core.Unparen(call.Fun).(*ast.Ident); isID && id.Name == "int" {
+				e = core.Unparen(call.Args[0])
+			}
+		}
+		mode = "trunc"
+		for changed := true; changed; {
+			changed = false
+			if name, call := core.MathFunc(rp.TypesInfo, e); call != nil && len(call.Args) == 1 {
+				switch name {
+				case "Round":
+					mode, e, changed = "round", core.Unparen(call.Args[0]), true
+				case "Ceil":
+					mode, e, changed = "ceil", core.Unparen(call.Args[0]), true
+				case "Floor":
+					e, changed = core.Unparen(call.Args[0]), true
+				}
+			}
+			if be, isBin := e.(*ast.BinaryExpr); isBin && be.Op == token.ADD {
+				if v, isC := constantFloat(core.ConstVal(rp.TypesInfo, be.Y)); isC && v == 0.5 && rp.TypesInfo.Types[be.Y].Value != nil {
+					mode, e, changed = "round", core.Unparen(be.X), true
+				}
+			}
+		}
+		be, isBin := e.(*ast.BinaryExpr)
+		if !isBin || be.Op != token.MUL {
+			return mode, false
+		}
+		hasRes := false
+		for _, f := range []ast.Expr{be.X, be.Y} {
+			if call, isCall := core.Unparen(f).(*ast.CallExpr); isCall {
+				if cf := core.CalleeOf(rp.TypesInfo, call); cf != nil && cf.Name() == "DPMM" {
+					hasRes = true
+				}
+			}
+		}
+		return mode, hasRes
+	}
+	var modes []string
+	okSize := true
+	nSizeSites := 0
+	for _, fn := range []string{"Draw", "New"} {
+		f := core.MustFuncDecl(rp, fn)
+		ast.Inspect(f.Body, func(nd ast.Node) bool {
+			call, ok := nd.(*ast.CallExpr)
+			if !ok || len(call.Args) != 4 {
+				return true
+			}
+			if cf := core.CalleeOf(rp.TypesInfo, call); cf == nil || cf.Name() != "Rect" {
+				return true
+			}
+			nSizeSites++
+			for _, a := range call.Args[2:] {
+				m, ok := sizeMode(a)
+				if !ok {
+					okSize = false
+				}
+				modes = append(modes, m)
+			}
+			return true
+		})
+	}
+	for _, m := range modes {
+		if m != modes[0] || m == "trunc" {
 			okSize = false
 		}
 	}
-	if okSize {
-		r.OK("E6.image-size", "renderers/rasterizer|Draw~New", c.Pos(rfd.Pos()), "int(width*DPMM+0.5) x int(height*DPMM+0.5)")
+	if okSize && nSizeSites == 2 {
+		r.OK("E6.image-size", "renderers/rasterizer|Draw~New", c.Pos(rfd.Pos()), "extent × DPMM, "+modes[0]+" at both sites and axes")
 	} else {
-		r.Fail("E6.image-size", "renderers/rasterizer|Draw~New", c.Pos(rfd.Pos()), fmt.Sprintf("image size expressions differ or are not width x height x resolution: %v", shapes))
+		r.Fail("E6.image-size", "renderers/rasterizer|Draw~New", c.Pos(rfd.Pos()), fmt.Sprintf("the image size is not the rounded extent × resolution with one rounding mode at both sites and for both axes: modes %v (%v)", modes, shapes))
 	}
 }
 
@@ -1662,4 +1727,288 @@ func E6OutlineNonzero(c *core.Ctx, r *core.Report) {
 	}
 	r.Count("E6.explicit-outlines", n)
 	r.Floor("E6.explicit-outlines", 3)
+}
+
+// skipBoundsCover analyses a RenderPath-like function: wherever it returns early under a condition
+// on a bounds variable, that variable covers everything the function would paint on that path —
+// the fill outline when the style has a fill, the stroke outline when it has a stroke. A stroke
+// outline stands for the fill as well only when it was not dashed (the outline of a solid stroke
+// encloses the path; the outline of a dashed one covers the dashes only). Returns the number of
+// early-outs examined and a description of the first uncovered one.
+func skipBoundsCover(info *types.Info, fd *ast.FuncDecl) (int, string, token.Pos) {
+	// variables: bounds (Rect-typed local used in a returning if), fill/stroke path locals
+	type st struct {
+		covers map[string]bool // "fill", "stroke"
+		dashed bool
+		kind   map[types.Object]string // path local -> "fill" | "stroke" | "dashed-stroke" | "path"
+	}
+	clone := func(a st) st {
+		b := st{covers: map[string]bool{}, dashed: a.dashed, kind: map[types.Object]string{}}
+		for k, v := range a.covers {
+			b.covers[k] = v
+		}
+		for k, v := range a.kind {
+			b.kind[k] = v
+		}
+		return b
+	}
+	isRect := func(t types.Type) bool { return t != nil && strings.HasSuffix(t.String(), "Rect") }
+	var boundsObjs = map[types.Object]bool{}
+	ast.Inspect(fd.Body, func(m ast.Node) bool {
+		if id, ok := m.(*ast.Ident); ok {
+			if v, ok := info.Defs[id].(*types.Var); ok && isRect(v.Type()) {
+				boundsObjs[v] = true
+			}
+		}
+		return true
+	})
+	mentionsBounds := func(e ast.Node) bool {
+		f := false
+		ast.Inspect(e, func(k ast.Node) bool {
+			if id, ok := k.(*ast.Ident); ok && boundsObjs[core.ObjOf(info, id)] {
+				f = true
+			}
+			return true
+		})
+		return f
+	}
+	sites := 0
+	bad := ""
+	var badPos token.Pos
+	for _, hasFill := range []bool{true, false} {
+		for _, hasStroke := range []bool{true, false} {
+			if !hasFill && !hasStroke {
+				continue
+			}
+			env := func(e ast.Expr) tri {
+				call, ok := e.(*ast.CallExpr)
+				if !ok {
+					return tUnknown
+				}
+				se, ok := call.Fun.(*ast.SelectorExpr)
+				if !ok {
+					return tUnknown
+				}
+				switch se.Sel.Name {
+				case "HasFill":
+					return triOf(hasFill)
+				case "HasStroke":
+					return triOf(hasStroke)
+				}
+				return tUnknown
+			}
+			// the kind of path an expression evaluates to
+			var pathKind func(e ast.Expr, a st) string
+			pathKind = func(e ast.Expr, a st) string {
+				switch x := core.Unparen(e).(type) {
+				case *ast.Ident:
+					if k, ok := a.kind[core.ObjOf(info, x)]; ok {
+						return k
+					}
+					return "path"
+				case *ast.CallExpr:
+					se, ok := x.Fun.(*ast.SelectorExpr)
+					if !ok {
+						return "path"
+					}
+					base := pathKind(se.X, a)
+					switch se.Sel.Name {
+					case "Stroke":
+						if base == "dashed" || base == "dashed-stroke" {
+							return "dashed-stroke"
+						}
+						return "stroke"
+					case "Dash":
+						if base == "stroke" || base == "dashed-stroke" {
+							return "dashed-stroke"
+						}
+						return "dashed"
+					}
+					return base
+				}
+				return "path"
+			}
+			contributions := func(e ast.Expr, a st) map[string]bool {
+				out := map[string]bool{}
+				ast.Inspect(e, func(k ast.Node) bool {
+					call, ok := k.(*ast.CallExpr)
+					if !ok {
+						return true
+					}
+					se, ok := call.Fun.(*ast.SelectorExpr)
+					if !ok || (se.Sel.Name != "FastBounds" && se.Sel.Name != "Bounds") {
+						return true
+					}
+					switch pathKind(se.X, a) {
+					case "path":
+						out["fill"] = true
+					case "stroke":
+						out["fill"], out["stroke"] = true, true
+					case "dashed-stroke":
+						out["stroke"] = true
+					}
+					return true
+				})
+				return out
+			}
+			var walk func(stmts []ast.Stmt, a st) bool
+			walk = func(stmts []ast.Stmt, a st) bool {
+				for i, s0 := range stmts {
+					switch x := s0.(type) {
+					case *ast.ReturnStmt:
+						return false
+					case *ast.BlockStmt:
+						return walk(append(append([]ast.Stmt{}, x.List...), stmts[i+1:]...), a)
+					case *ast.IfStmt:
+						if x.Init != nil {
+							walk([]ast.Stmt{x.Init}, a)
+						}
+						// an early-out on the bounds?
+						if mentionsBounds(x.Cond) && len(x.Body.List) > 0 {
+							if _, isRet := x.Body.List[len(x.Body.List)-1].(*ast.ReturnStmt); isRet {
+								sites++
+								var missing []string
+								if hasFill && !a.covers["fill"] {
+									missing = append(missing, "the fill outline")
+								}
+								if hasStroke && !a.covers["stroke"] {
+									missing = append(missing, "the stroke outline")
+								}
+								if len(missing) > 0 && bad == "" {
+									bad = fmt.Sprintf("with HasFill=%v and HasStroke=%v the function returns early on bounds that do not cover %s", hasFill, hasStroke, strings.Join(missing, " and "))
+									badPos = x.Pos()
+								}
+							}
+						}
+						t := evalBool(info, x.Cond, env)
+						rest := stmts[i+1:]
+						if t != tFalse {
+							walk(append(append([]ast.Stmt{}, x.Body.List...), rest...), clone(a))
+						}
+						if t != tTrue {
+							switch el := x.Else.(type) {
+							case nil:
+								walk(rest, clone(a))
+							case *ast.BlockStmt:
+								walk(append(append([]ast.Stmt{}, el.List...), rest...), clone(a))
+							case *ast.IfStmt:
+								walk(append([]ast.Stmt{el}, rest...), clone(a))
+							}
+						}
+						return false
+					case *ast.AssignStmt:
+						if len(x.Lhs) != len(x.Rhs) {
+							continue
+						}
+						for k, l := range x.Lhs {
+							id, ok := l.(*ast.Ident)
+							if !ok {
+								continue
+							}
+							o := core.ObjOf(info, id)
+							if boundsObjs[o] {
+								nc := contributions(x.Rhs[k], a)
+								if mentionsBounds(x.Rhs[k]) {
+									for c := range a.covers {
+										nc[c] = true
+									}
+								}
+								a.covers = nc
+								continue
+							}
+							if t := info.TypeOf(x.Rhs[k]); t != nil && strings.HasSuffix(t.String(), "Path") {
+								a.kind[o] = pathKind(x.Rhs[k], a)
+							}
+						}
+					}
+				}
+				return true
+			}
+			walk(fd.Body.List, st{covers: map[string]bool{}, kind: map[types.Object]string{}})
+		}
+	}
+	return sites, bad, badPos
+}
+
+// E6SkipBoundsCover: an early-out of the rasterizer's RenderPath is taken on bounds that cover the fill and the stroke.
+func E6SkipBoundsCover(c *core.Ctx, r *core.Report) {
+	r.Rule("E6.skip-bounds-cover", "Rasterizer.RenderPath may skip a path that lies outside the image only on bounds that cover everything it would paint: for each combination of HasFill/HasStroke the function is walked with those tests decided, following what the bounds variable was built from — FastBounds/Bounds of the transformed path covers the fill; of a stroke outline covers the stroke and, because the outline of a solid stroke encloses the path, the fill; of the outline of a dashed path covers the dashes only. An early return under a condition on the bounds is taken with the fill covered when there is a fill and the stroke covered when there is a stroke. The recogniser is exercised on a built-in example on every run (today's RenderPath has no early-out, so the expected count on the tree is zero)")
+	// self-test
+	{
+		src := `package x
+type Rect struct{ X0, Y0, X1, Y1 float64 }
+func (r Rect) Add(q Rect) Rect { return r }
+type Path struct{}
+func (p *Path) FastBounds() Rect { return Rect{} }
+func (p *Path) Transform(m int) *Path { return p }
+func (p *Path) Stroke(w float64) *Path { return p }
+func (p *Path) Dash(o float64) *Path { return p }
+type Style struct{ D []float64 }
+func (s Style) HasFill() bool { return true }
+func (s Style) HasStroke() bool { return true }
+func good(path *Path, style Style) {
+	bounds := Rect{}
+	if style.HasFill() { bounds = path.Transform(1).FastBounds() }
+	if style.HasStroke() {
+		stroke := path
+		if 0 < len(style.D) { stroke = stroke.Dash(0) }
+		stroke = stroke.Stroke(1).Transform(1)
+		if style.HasFill() { bounds = bounds.Add(stroke.FastBounds()) } else { bounds = stroke.FastBounds() }
+	}
+	if bounds.X1 <= 0 { return }
+}
+func bad(path *Path, style Style) {
+	bounds := Rect{}
+	if style.HasFill() { bounds = path.Transform(1).FastBounds() }
+	if style.HasStroke() {
+		stroke := path
+		if 0 < len(style.D) { stroke = stroke.Dash(0) }
+		stroke = stroke.Stroke(1).Transform(1)
+		bounds = stroke.FastBounds()
+	}
+	if bounds.X1 <= 0 { return }
+}
+func solid(path *Path, style Style) {
+	bounds := Rect{}
+	if style.HasStroke() {
+		stroke := path.Stroke(1).Transform(1)
+		bounds = stroke.FastBounds()
+	} else { bounds = path.FastBounds() }
+	if bounds.X1 <= 0 { return }
+}
+`
+		fset := token.NewFileSet()
+		f, err := parser.ParseFile(fset, "selftest.go", src, 0)
+		if err != nil {
+			panic(core.Infra("skip-bounds-cover self-test does not parse: " + err.Error()))
+		}
+		info := &types.Info{Types: map[ast.Expr]types.TypeAndValue{}, Uses: map[*ast.Ident]types.Object{}, Defs: map[*ast.Ident]types.Object{}, Selections: map[*ast.SelectorExpr]*types.Selection{}}
+		if _, err := (&types.Config{}).Check("x", fset, []*ast.File{f}, info); err != nil {
+			panic(core.Infra("skip-bounds-cover self-test does not type-check: " + err.Error()))
+		}
+		got := ""
+		for _, d := range f.Decls {
+			fd, ok := d.(*ast.FuncDecl)
+			if !ok || fd.Recv != nil {
+				continue
+			}
+			n, bad, _ := skipBoundsCover(info, fd)
+			got += fmt.Sprintf("%s:%d%s ", fd.Name.Name, n, map[bool]string{true: "+", false: "-"}[bad == ""])
+		}
+		if got != "good:5+ bad:5- solid:3+ " {
+			panic(core.Infra("skip-bounds-cover self-test: recogniser answers `" + got + "`"))
+		}
+		r.Count("E6.skip-bounds-selftest", 3)
+	}
+	p := c.MustPkg("renderers/rasterizer")
+	fd := core.MustFuncDecl(p, "Rasterizer.RenderPath")
+	r.Func("renderers/rasterizer.Rasterizer.RenderPath")
+	n, bad, pos := skipBoundsCover(p.TypesInfo, fd)
+	key := "renderers/rasterizer.Rasterizer.RenderPath|early-outs are taken on bounds that cover fill and stroke"
+	if bad == "" {
+		r.OK("E6.skip-bounds-cover", key, c.Pos(fd.Pos()), fmt.Sprintf("%d early-out evaluation(s)", n))
+	} else {
+		r.Fail("E6.skip-bounds-cover", key, c.Pos(pos), bad+": pixels of the uncovered part that lie inside the image are not painted")
+	}
+	r.Floor("E6.skip-bounds-selftest", 3)
 }
